@@ -802,8 +802,8 @@ func (e *Exec) labsTerm(arr, off, n, pc string) string {
 		return t
 	}
 	e.once("labs:"+pc+":"+t, func() {
-		prev := app("labs", arr, off, app("bvsub", n, bvLitI(64, 1)))
-		last := sel(arr, app("bvadd", off, app("bvsub", n, bvLitI(64, 1))))
+		prev := app("labs", arr, off, bvSub(n, bvLitI(64, 1)))
+		last := sel(arr, bvAdd(off, bvSub(n, bvLitI(64, 1))))
 		e.assume(mkImp(pc, mkAnd(
 			mkImp(mkEq(n, bvLitI(64, 0)), mkEq(t, "lnil")),
 			mkImp(app("bvsgt", n, bvLitI(64, 0)), mkEq(t, app("lsnoc", prev, last))))))
